@@ -74,11 +74,20 @@ def Formula.depth : Formula → Nat
   | .bin _ l r => max l.depth r.depth + 1
   | .quant _ _ f => f.depth + 1
 
-/-- State of the renaming loop over one binder block. -/
-structure RenameState where
-  body : Formula
-  vars : List Var
-  taken : List Var
+/-- The renaming loop over one binder block (`for variable in quantification.variables`):
+    `sub` is `substitute` on the (smaller) body, `tv` the variables of the term, `taken` the names
+    a fresh binder must avoid. Returns the renamed body and the new binder list. -/
+def renameLoop (sub : Formula → Var → GTerm → Formula) (tv : List Var) :
+    List Var → Formula → List Var → Formula × List Var
+  | [], body, _ => (body, [])
+  | x :: xs, body, taken =>
+    if x ∈ tv then
+      let fr := freshVar x taken
+      let r := renameLoop sub tv xs (sub body x fr.toTerm) (ins taken fr)
+      (r.1, fr :: r.2)
+    else
+      let r := renameLoop sub tv xs body taken
+      (r.1, x :: r.2)
 
 def Formula.substFuel : Nat → Formula → Var → GTerm → Formula
   | _, .atomic a, v, s => .atomic (a.subst v s)
@@ -90,13 +99,8 @@ def Formula.substFuel : Nat → Formula → Var → GTerm → Formula
     else
       let tv := s.vars
       let taken0 := ins (ext (ext f.fv tv) vs) v
-      let st := vs.foldl (fun (st : RenameState) x =>
-          if x ∈ tv then
-            let fr := freshVar x st.taken
-            { body := substFuel n st.body x fr.toTerm, vars := st.vars ++ [fr], taken := ins st.taken fr }
-          else { st with vars := st.vars ++ [x] })
-        ({ body := f, vars := [], taken := taken0 } : RenameState)
-      (substFuel n st.body v s).quantify q st.vars
+      let r := renameLoop (substFuel n) tv vs f taken0
+      (substFuel n r.1 v s).quantify q r.2
 
 def Formula.subst (f : Formula) (v : Var) (s : GTerm) : Formula := f.substFuel (f.depth + 1) v s
 
@@ -111,13 +115,7 @@ def Formula.substPanicsFuel : Nat → Formula → Var → GTerm → Bool
     else
       let tv := s.vars
       let taken0 := ins (ext (ext f.fv tv) vs) v
-      let st := vs.foldl (fun (st : RenameState) x =>
-          if x ∈ tv then
-            let fr := freshVar x st.taken
-            { body := Formula.substFuel n st.body x fr.toTerm, vars := st.vars ++ [fr], taken := ins st.taken fr }
-          else { st with vars := st.vars ++ [x] })
-        ({ body := f, vars := [], taken := taken0 } : RenameState)
-      substPanicsFuel n st.body v s
+      substPanicsFuel n (renameLoop (Formula.substFuel n) tv vs f taken0).1 v s
 
 def Formula.substPanics (f : Formula) (v : Var) (s : GTerm) : Bool :=
   f.substPanicsFuel (f.depth + 1) v s
